@@ -237,12 +237,61 @@ def rbytes(rng, n, ascii_only=False):
     return [rng.choice(al) if rng.random() < 0.8 else (rng.randrange(128) if ascii_only else rng.randrange(256)) for _ in range(n)]
 
 
+NOVEL = []      # literals of the current source that the pinned source does not contain (vlib/dictionary.py); empty on the unchanged tree
+
+
 def counts_for(b, rng=None):
     """boundary counts relative to the current state"""
     l, w, s = b.ln(), b.wl(), b.size
     c = {0, 1, 2, max(l - 1, 0), l, l + 1, max(w - 1, 0), w, w + 1, s, s + 1, UMAX, UMAX - 1, U - b.ri if b.ri else UMAX,
          (U - b.wi) % U, 2 ** 63, U - 1 - b.ri}
+    c |= set(NOVEL)
     return sorted(x for x in c if 0 <= x <= UMAX)
+
+
+def dictionary_cases(rng):
+    """directed search around novel literals: buffers whose read offset / write offset / length / size equal the literal,
+    then every op instance (with the literal among the counts)"""
+    from . import dictionary
+    cases = []
+    EXACT = set(dictionary.exact())
+    for v in NOVEL:
+        S = dictionary.size_for(v)
+        if S is None or (S > 4096 and v not in EXACT):      # big buffers are expensive in the model: only the literal itself
+            continue
+        states = []
+        mem = [97 + (i % 26) for i in range(S)]
+        big = S > 4096        # the model's deframers are quadratic in the unread length: keep the unread part short on big buffers
+        if v >= 1 and not big:
+            states.append((2, mem, [("ReadBytes", v)]))                                 # read offset = v, full to the end
+            states.append((2, mem, [("ReadBytes", S - v)]))                             # length = v
+        if not big:
+            states.append((0, [], [("WriteBytes", tuple(mem[:v]))] if v else []))       # write offset = v, length = v
+        if v + 3 <= S and v >= 1:
+            states.append((0, [], [("WriteBytes", tuple(mem[:v + 3])), ("ReadBytes", v)]))   # read offset = v, 3 unread bytes
+        if v >= 2:
+            states.append((0, [], [("WriteBytes", tuple(mem[:v])), ("ReadBytes", v - 2)]))   # write offset = v, 2 unread bytes
+        if v + 2 <= S and not big:
+            states.append((0, [], [("WriteBytes", tuple(mem[:v + 2])), ("ReadBytes", 2)]))   # length = v at offset 2
+        if big:
+            states.append((0, [], [("WriteBytes", tuple(mem[:v]))]))                    # length = v (no deframing on this one)
+        for ctor, m, pre in states:
+            b = PyBuf(S, ctor, m)
+            for op in pre:
+                b.apply(op)
+            alpha = op_alphabet(b, rng)
+            if S > 1024:
+                keep = {"Shift", "ReadAll", "ReadByte", "Clear", "Len", "Readable", "Deframe", "CopyOnce", "TryParse", "WriteStr"}
+                alpha = [o for o in alpha if o[0] in keep or (len(o) > 1 and isinstance(o[1], int) and o[1] in (0, 1, v, b.ln(), b.wl()))][:36]
+            if b.ln() > 4096:
+                alpha = [o for o in alpha if o[0] != "Deframe"]
+            for op in alpha:
+                if op[0] in ("ReadCopy", "TryReadExact", "IoRead") and op[1] > 70000:
+                    continue
+                cases.append(mk_case(S, ctor, m, pre + [op], "dictionary"))
+                if op[0] in ("Shift", "ReadBytes", "Wrote", "WriteBytes", "Clear", "ReadAll") and b.ln() <= 4096:
+                    cases.append(mk_case(S, ctor, m, pre + [op, ("WriteBytes", (120, 121, 10))] + [("Deframe", 0), ("ReadAll",)], "dictionary"))
+    return cases
 
 
 def rand_steps(rng, b, depth):
@@ -405,6 +454,8 @@ class ApiProp(Prop):
             size = rng.choice(SIZES_RANDOM[:9]) if rng.random() < 0.9 else rng.choice(SIZES_RANDOM)
             cases.append(random_history(rng, size, 12 if tier == "quick" else 40))
         cases += self.extra_cases(tier, rng)
+        if NOVEL:
+            cases += dictionary_cases(rng)
         return cases
 
     def extra_cases(self, tier, rng):
